@@ -1,7 +1,7 @@
 (* C05 — pdag_to_dag returns a consistent extension exactly when one exists. *)
 From Coq Require Import List Arith.
-From PG Require Import Base.ListSet Graph.MGraph C04.Dag C04.Model C04.Spec C04.Refl C04.Bounded_4 C04.Bounded_5
-  C05.Model C05.Spec C05.Proofs C05.Refuted C05.Roundtrip C05.Bounded_5.
+From PG Require Import Base.ListSet Graph.MGraph C04.Dag C04.Model C04.Spec C04.Refl
+  C05.Model C05.Spec C05.Proofs C05.Refuted C05.Roundtrip C05.Fixpoint C05.SomeTopo C05.RoundtripAll.
 Import ListNotations.
 
 (* unbounded: whatever the model returns is a consistent extension *)
@@ -41,12 +41,22 @@ Theorem roundtrip_equiv : forall d ord, is_dag d -> topo d ord ->
 Proof. exact roundtrip_equiv_proof. Qed.
 Print Assumptions roundtrip_equiv.
 
-(* kernel computation (8 shards, ~6 CPU-min): both consequences, incl. pdag_to_cpdag (cpdag d) = cpdag d, for every DAG of the
-   complete enumeration of the DAGs on 0..n-1, n <= 5 (29 281 for n = 5), and EVERY topological order *)
-Theorem roundtrip_bounded_5 : forall n es ord, n <= 5 -> In es (dagsF n) ->
-  let d := mkd (seq 0 n) es in topob d ord = true -> roundtrip_stmt d ord.
-Proof. exact roundtrip_bounded_5_proof. Qed.
-Print Assumptions roundtrip_bounded_5.
+(* UNBOUNDED consequence 1: pdag_to_cpdag maps the CPDAG of a DAG to itself, for every topological order of d and EVERY
+   topological order of the DAG returned by pdag_to_dag (uses C04's all-sizes Chickering theorem) *)
+Theorem cpdag_fixpoint : forall d ord, is_dag d -> topo d ord ->
+  exists cg d', cpdag_graph d ord = Some cg /\ pdag_model cg = Some d' /\ meq d d' /\
+    forall ord', topo d' ord' -> exists cg', cpdag_graph d' ord' = Some cg' /\ graph_eqb cg cg' = true.
+Proof. exact cpdag_fixpoint_proof. Qed.
+Print Assumptions cpdag_fixpoint.
+
+(* UNBOUNDED: both consequences with the model's own order for the second conversion (some_topo, proved topological) *)
+Theorem roundtrip_all : forall d ord, is_dag d -> topo d ord -> roundtrip_stmt d ord.
+Proof. exact roundtrip_all_proof. Qed.
+Print Assumptions roundtrip_all.
+
+Theorem some_topo_is_topological : forall d, is_dag d -> topo d (some_topo d).
+Proof. exact some_topo_topo. Qed.
+Print Assumptions some_topo_is_topological.
 
 (* hypotheses satisfiable on non-trivial inputs: an extendable PDAG, and one without extension (the 4-cycle a-b-c-d-a with a v-structure forced) *)
 Example pdag_example :
